@@ -42,6 +42,7 @@ CODES = {
     103: 'a collection creation was refused for quota although the user\'s own number of collections is below its MaxCollections',
     104: 'the other user\'s directory tree below userCollections/<id> changed during a step performed by this user',
     105: 'a request with a forbidden X-User-Id (".", "..", empty, containing \'/\' or \'\\\') was not answered 400',
+    106: 'a vector search returned the user\'s own points with distances that are not the distances to their vectors: the answer was computed from data that is not hers',
     201: 'the status class of the answer (2xx / 409 exists / 403 quota / 404 not found / 400 invalid) differs from Model_C16.http_step',
 }
 
